@@ -12,7 +12,11 @@ CLAIMS = {
         "text": "Theorem C01_accept: for every text, the model of IBAN(text) succeeds iff the extracted ISO 13616 predicate "
                 "holds of clean(text) over the table regenerated from the tree; C01_alphabet: accepted => 0-9A-Z only, length <= 34. "
                 "Generic proof + data obligations (cfg_ok, row_ok per country, env_wf) re-discharged by vm_compute on every run; "
-                "model tied to the code by translator (regex sites/patterns/flags, step list, table) and correspondence streams.",
+                "model tied to the code by translator (regex sites/patterns/flags, step list, table) and correspondence streams. "
+                "'After removing whitespace' is pinned independently of the code: C01_ws_obl demands that the regenerated set of "
+                "code points the cleaning removes equals the hand-written white-space list of Spec/Whitespace.v (both inclusions), "
+                "C01_accept_ws restates acceptance against strip_whitespace, the specification side of the streams cleans with that "
+                "list, and valid texts get every differing code point and common separators / invisible characters inserted.",
         "note": COMMON_NOTE,
         "technique": "Coq proof (regex-derivative matcher correctness, mod-97 arithmetic) + generated data obligations + extracted-model correspondence",
         "design_ref": "DESIGN.md §4 C01",
@@ -40,7 +44,8 @@ CLAIMS = {
                 "has the ISO 9362 structure 4!c2!a2!c[3!c] (4!a.. when strict) and its 5th-6th characters are in the ISO 3166 "
                 "list regenerated from pycountry. Generic proof over any configuration passing bic_cfg_ok (patterns as counted "
                 "class runs with an optional tail, full-match site, lengths {8,11}, all three steps present), obligation "
-                "re-discharged on the translated bic.py on every run. Found and fixed: prefix match (df13fbc).",
+                "re-discharged on the translated bic.py on every run. Found and fixed: prefix match (df13fbc). Whitespace is pinned "
+                "as for C01: C04_ws_obl (the cleaning removes exactly Spec/Whitespace.v), C04_accept_ws, insertion streams.",
         "note": COMMON_NOTE + " pycountry's case-insensitive get is modelled as exact membership in its upper-case code list (coincide on [A-Z]{2}; exercised by the stream).",
         "technique": "Coq proof (regex language of runs+optional tail) + generated data obligations + extracted-model correspondence",
         "design_ref": "DESIGN.md §4 C04",
@@ -121,7 +126,8 @@ CLAIMS = {
                 "concatenation in the given file order), C18_parse_v2 (one entry per listed value, other keys kept, primary "
                 "defaulted). C18_effective_table: the table all other theorems use equals, field by field, the model of "
                 "registry.get applied to the tree's raw JSON files (vm_compute). The bank list and the real registry.get on "
-                "scratch directories are tied by correspondence.",
+                "scratch directories are tied by correspondence (random documents, and 2-5 files that are edits of one base document "
+                "so that one key goes dict -> scalar -> dict across files).",
         "note": COMMON_NOTE + " File-name sorting and v2 detection by stem are done by the harness when feeding the model (the model takes files in order with a v2 flag).",
         "technique": "Coq proof over a JSON inductive with an explicit set-order oracle + data obligation + correspondence on scratch registries",
         "design_ref": "DESIGN.md §4 C18",
@@ -265,8 +271,10 @@ CLAIMS = {
                 "with data obligations on tables regenerated from the package: every post-import store targets a scratch attribute "
                 "of an algorithm object (C15_only_scratch), each scratch attribute is written before it is read on every entry point "
                 "of every algorithm class (C15_write_before_read, on flat load/store sequences of the inlined call trees), and no "
-                "lazy registry load can happen at run time. On the implementation: a long shuffled history in one process vs the pure "
-                "model, the same calls in two orders in two fresh processes, and a digest of registries and earlier objects before/after.",
+                "lazy registry load can happen at run time; memoising decorators / cache factories count as shared writes in the scan. "
+                "On the implementation: a long shuffled history in one process vs the pure "
+                "model, the same calls in two orders in two fresh processes, a digest of registries and earlier objects before/after, "
+                "and twin calls (IBANs of different countries carrying the same BBAN string, in both orders).",
         "note": COMMON_NOTE + " Event sequences ignore control flow (source order of the inlined call tree), which over-approximates reads before writes.",
         "technique": "Coq proof (write-before-read independence) + generated access-table obligations + history streams",
         "design_ref": "DESIGN.md §4 C15",
